@@ -73,7 +73,7 @@ void pbt_generate(Rng& r, int size, Case& c) {
   int mode = (int)r.below(6);                                                 // 0,1 random 2 ascending 3 descending 4 zig-zag 5 fill-then-drain
   c.params["U"] = U;
   //                         ins inshint rm rmit rmfront rmback clear copy assign bulk selfassign insref recreate count
-  static const int w01[] = {30, 22, 12, 10, 4, 4, 1, 2, 2, 3, 0, 0, 1, 6};
+  static const int w01[] = {30, 22, 12, 10, 4, 4, 1, 2, 2, 3, 1, 0, 1, 6};
   static const int w04[] = {24, 12, 8, 8, 3, 3, 2, 5, 5, 5, 5, 8, 5, 2};
   static const int w05[] = {34, 20, 8, 8, 3, 3, 0, 1, 1, 2, 0, 0, 0, 2};
   static const char* names[] = {"ins", "inshint", "rm", "rmit", "rmfront", "rmback", "clear", "copy", "assign", "bulk", "selfassign", "insref", "recreate", "count"};
